@@ -44,6 +44,13 @@ type Opts struct {
 	// Component makes the stream's content namespace jabber:component:accept
 	// (XEP-0114), as component.NewSession's negotiator does.
 	Component bool
+	// Default builds the session with the library's own default negotiator
+	// (xmpp.NewNegotiator without features) as the initiating entity: the peer
+	// answers with its header and an empty features list.  PeerOmitsTo makes
+	// the peer's header leave out its to attribute, which the negotiator
+	// tolerates: the session's addresses must stay what they were.
+	Default     bool
+	PeerOmitsTo bool
 }
 
 // NS returns the content namespace for o.
@@ -77,6 +84,14 @@ func (o *Opts) defaults() {
 // Header returns the stream header a peer sends to a session built with o.
 func Header(o Opts) string {
 	o.defaults()
+	if o.Default {
+		to := " to='" + xmlEsc(o.Local) + "'"
+		if o.PeerOmitsTo {
+			to = ""
+		}
+		return fmt.Sprintf(`<?xml version="1.0"?><stream:stream xmlns='%s' xmlns:stream='%s' version='1.0' id='peerhdr' from='%s'%s><stream:features/>`,
+			o.NS(), NSStream, xmlEsc(o.Remote), to)
+	}
 	return fmt.Sprintf(`<?xml version="1.0"?><stream:stream xmlns='%s' xmlns:stream='%s' version='1.0' id='peerhdr' from='%s' to='%s'>`,
 		o.NS(), NSStream, xmlEsc(o.Remote), xmlEsc(o.Local))
 }
@@ -137,6 +152,10 @@ func Ready(rw io.ReadWriter, o Opts) (*xmpp.Session, error) {
 	st := o.State
 	if o.S2S {
 		st |= xmpp.S2S
+	}
+	if o.Default {
+		neg := xmpp.NewNegotiator(func(*xmpp.Session, *xmpp.StreamConfig) xmpp.StreamConfig { return xmpp.StreamConfig{} })
+		return xmpp.NewSession(context.Background(), remote, local, rw, st, neg)
 	}
 	if o.Received {
 		// ReceiveSession does not take addresses: they are learnt from the header.
